@@ -48,6 +48,22 @@ def run(repo: Repo, chk: Check):
     from .c06 import r06cdf
     chk.guarded(r07c, repo, chk, "R02.g")
     chk.shared({"R06.c": "R02.g", "R06.d": "R02.g", "R06.f": "R02.g", "R06.i": "R02.g"}, r06cdf, repo, chk)
+    chk.rule("R02.h", "no program is rejected because of an option: no 'raise' on the compile path is control-dependent on a CompileOptions field, and "
+                      "code that runs only under an option looks up the callee of a call only after establishing that it is a user function "
+                      "(the lookup fails for built-ins)", floor=1)
+    chk.guarded(r02h, repo, chk)
+    chk.rule("R02.i", "turning tail calls on does not change the stack pointer at a return: a call becomes a tail jump only when nothing is left to do "
+                      "after the callee has returned (shared with R06.m)", floor=1)
+    from .c06 import r06m
+    chk.guarded(r06m, repo, chk, "R02.i")
+    chk.rule("R02.k", "the option 'remove_labels' rewrites label operands and nothing else: the substitution pattern delimits whole labels and leaves text in "
+                      "quotes alone (shared with R05.a / R05.i)", floor=2)
+    from .c05 import r05a
+    chk.shared({"R05.a": "R02.k", "R05.i": "R02.k"}, r05a, repo, chk)
+    chk.rule("R02.j", "the option 'compact' changes how a constant is spelled, not whether an expression over it can be folded: the folding coercions "
+                      "understand every symbolic spelling (shared with R03.m)", floor=2)
+    from .c03 import r03m
+    chk.guarded(r03m, repo, chk, "R02.j")
 
 
 def _option_reads(repo, fields):
@@ -271,6 +287,15 @@ def r02e(repo, chk, R="R02.e"):
         same_block = body is not None and any(fs in body for fs in flag_sets)
         # the rewritten instruction is checked to be a jal on the same path
         guards_jal = body is not None and any(isinstance(s, ast.If) and "jal" in norm(s.test) and any(isinstance(x, ast.Raise) for x in ast.walk(s)) for s in body)
+        if not guards_jal:
+            # the positive form: the rewrite sits under a test  <instr>.op == "jal"
+            for nid in live_ids(cfg, rw)[:1]:
+                for t, pol in guard_atoms(cfg, nid):
+                    if isinstance(t, ast.Compare) and len(t.ops) == 1 and isinstance(t.left, ast.Attribute) and t.left.attr == "op" \
+                            and isinstance(t.comparators[0], ast.Constant) and t.comparators[0].value == "jal" \
+                            and ((isinstance(t.ops[0], ast.Eq) and pol) or (isinstance(t.ops[0], ast.NotEq) and not pol)) \
+                            and norm(t.left.value) == norm(rw.targets[0].value):
+                        guards_jal = True
         chk.judge(R, "generate_code:compile_function:rewrite jal->j sets the tail-call flag in the same block", same_block and guards_jal,
                   f"the rewrite {norm(rw)} and '{flag} = True' are not in one block (or the rewritten instruction is not verified to be a jal): "
                   f"'j ra' could be dropped without a tail jump, or kept after one", None, f"{g.path}:{rw.lineno} in {cf.qual}")
@@ -329,3 +354,81 @@ def r02e(repo, chk, R="R02.e"):
         chk.judge(R, "generate_code:compile_function:the final 'j ra' is suppressed by that flag only", mentions,
                   f"the condition of the final 'j ra' does not mention {flag}: after a tail call the function would return twice or never", None, f.where())
     # tail calls only for functions that are emitted as a region (not inlined): checked as part of R02.c (negated predicate)
+
+
+# ---------------------------------------------------------------------- R02.h
+def _is_option_read(a, fields):
+    return isinstance(a, ast.Attribute) and a.attr in fields and isinstance(a.ctx, ast.Load) and \
+        (norm(a.value).endswith("options") or norm(a.value) == "opts")
+
+
+def r02h(repo, chk, R="R02.h"):
+    fields = set(option_fields(repo))
+    n_raise = 0
+    for mn in ("compile_pass", "generate_code", "register_assignment", "utils", "types"):
+        if not repo.has_mod(mn):
+            continue
+        m = repo.mod(mn)
+        for fn in m.funcs.values():
+            if not isinstance(fn, (ast.FunctionDef, ast.AsyncFunctionDef)):
+                continue
+            raises = [r for r in ast.walk(fn) if isinstance(r, ast.Raise) and enclosing_def(r) is fn]
+            lookups = [c for c in ast.walk(fn) if isinstance(c, ast.Call) and isinstance(c.func, ast.Attribute) and c.func.attr == "get_sym_data"
+                       and len(c.args) == 1 and not c.keywords and isinstance(c.args[0], ast.Attribute) and c.args[0].attr == "func" and enclosing_def(c) is fn]
+            if not raises and not lookups:
+                continue
+            if not any(_is_option_read(a, fields) for a in ast.walk(fn)):
+                n_raise += len(raises)
+                continue
+            cfg, rd = fn_ctx(fn)
+            chk.saw(mn, fn.qual)
+            for r in raises:
+                ids = live_ids(cfg, r)
+                if not ids:
+                    continue
+                n_raise += 1
+                atoms = guard_atoms(cfg, ids[0])
+                opts = sorted({a.attr for t, _ in atoms for a in ast.walk(t) if _is_option_read(a, fields)})
+                what = norm(r.exc)[:70] if r.exc is not None else "re-raise"
+                # the message identifies the rejection, not its position
+                msg = next((norm(x)[:60] for x in ast.walk(r) if isinstance(x, (ast.Constant, ast.JoinedStr)) and (not isinstance(x, ast.Constant) or isinstance(x.value, str))), what)
+                key = f"{mn}:{fn.qual}:raise {msg}"
+                if opts:
+                    chk.bad(R, key, f"this rejection happens only under a condition on the option(s) {opts} "
+                                    f"({'; '.join(norm(t) + ' is ' + str(p) for t, p in atoms if any(_is_option_read(a, fields) for a in ast.walk(t)))}): "
+                                    f"the same program compiles under the other value, so the option changes more than size and layout",
+                            {"options": opts}, f"{m.path}:{r.lineno} in {fn.qual}")
+                else:
+                    chk.ok(R, key, None)
+            for c in lookups:
+                ids = live_ids(cfg, c)
+                if not ids:
+                    continue
+                atoms = guard_atoms(cfg, ids[0])
+                if not any(_is_option_read(a, fields) for t, _ in atoms for a in ast.walk(t)):
+                    continue
+                subj = norm(c.args[0].value)
+                user = False
+                for t, pol in atoms:
+                    if isinstance(t, ast.Compare) and len(t.ops) == 1 and isinstance(t.ops[0], (ast.In, ast.NotIn)) and \
+                            norm(t.comparators[0]).endswith("functions") and (isinstance(t.ops[0], ast.In) == pol):
+                        lhs = t.left
+                        if isinstance(lhs, ast.Name):
+                            ds = rd.at(nid_of(cfg, t, ids[0]), lhs.id)
+                            if len(ds) == 1 and ds[0].kind == "assign" and not ds[0].index and ds[0].value is not None:
+                                lhs = ds[0].value
+                        if subj in norm(lhs):
+                            user = True
+                    if isinstance(t, ast.Call) and norm(t.func).split(".")[-1] == "is_builtin_name" and not pol and t.args and subj in norm(t.args[0]):
+                        user = True
+                chk.judge(R, f"{mn}:{fn.qual}:symbol of the callee of {subj} is looked up for user functions only", user,
+                          f"{norm(c)} runs only under an option and fails ('Name not found') when {subj} calls a built-in (yield_(), sleep(..), sqrt(..)): "
+                          f"a program that ends a function with such a call compiles without the option and is rejected with it",
+                          {"guards": [norm(t) for t, _ in atoms]}, f"{m.path}:{c.lineno} in {fn.qual}")
+    if n_raise < 40:
+        raise AnalysisError(f"{R}: only {n_raise} raise statements seen on the compile path (expected more than 40)")
+
+
+def nid_of(cfg, test, default):
+    ids = live_ids(cfg, test)
+    return ids[0] if ids else default
